@@ -76,6 +76,7 @@ MachineStep ==
   \/ SliceStart \/ SliceElem
   \/ PtrStart
   \/ CustomStart \/ CustomTest \/ CustomResult
+  \/ PreStart \/ PreResult
   \/ NodeDone
 
 TraceStep ==
@@ -98,7 +99,7 @@ Attribution ==
   LET got == Trace[l].e
       isCb(k) == k \in {"test", "pt"}
   IN IF got = "field" /\ CanEmitSameId THEN "C10"          \* same field, resolved under a different input key
-     ELSE IF got \in {"pt"} \/ CanEmit("pt") THEN "C12"
+     ELSE IF got \in {"pt", "pre"} \/ CanEmit("pt") \/ CanEmit("pre") THEN "C12"
      ELSE IF got = "test" /\ CanEmitSameId THEN "C12"       \* same callback, wrong argument / value / context
      ELSE IF got = "test" \/ CanEmit("test") THEN "C02T"    \* a test ran that should not, or did not run
      ELSE "C02"
@@ -149,13 +150,13 @@ C17Got(R) == [i \in DOMAIN R.issues |-> [code |-> R.issues[i].code, msg |-> MsgC
 
 RetVerdicts(R, c, lineNo, tag) ==
   LET ri     == Proj(R.issues)
-      ref    == RefIssuesOf(c)
+      ref    == NonPT(RefIssuesOf(c))
       rd     == DestFn(R)
       refd   == RefDestOf(c)
       d0     == InitDestOf(c)
       cp     == CatchPathsOf(c)
       off(s) == SelectSeq(s, LAMBDA i : i.path \notin cp)
-      unc    == RefIssuesOf([c EXCEPT !.schema = Uncatch(c.schema)])
+      unc    == NonPT(RefIssuesOf([c EXCEPT !.schema = Uncatch(c.schema)]))
       ok     == R.panic = ""
       mk(p, k, det) == V(p, k, c.id, lineNo, det)
       checks == <<
